@@ -40,6 +40,8 @@ def run_tasks(tasks, tier, jobs):
     py = sys.executable
     env = dict(os.environ)
     env["PYTHONPATH"] = HERE + os.pathsep + env.get("PYTHONPATH", "")
+    for k in ("OMP_NUM_THREADS", "OPENBLAS_NUM_THREADS", "MKL_NUM_THREADS", "NUMEXPR_NUM_THREADS"):
+        env[k] = "1"
     while nxt < len(tasks) or running:
         while nxt < len(tasks) and len(running) < jobs:
             t = tasks[nxt]
